@@ -30,6 +30,7 @@ inductive QOp where
   | clear
   | remove (v : Bytes)            -- Dusq only
   | count (v : Bytes)             -- Durq only
+  | sync (force : Bool)           -- sync(force=…) called on the live object
 deriving Repr
 
 inductive QRes where
@@ -63,6 +64,21 @@ def pullDurable (db : Db) (k : Bytes) (hit : Option Bytes) (emptive : Bool) : Db
       if popped.isSome then (db', .raise .hierError)
       else if emptive then (db', .val none) else (db', .raise .indexError)
     | some v => if popped.isNone then (db', .raise .hierError) else (db', .val (some v))
+
+/-- the body of `sync()` once `durable and (stale or force)` holds, for an object whose in-memory content is `mem`:
+a NON-EMPTY durable copy wins (the container is cleared and reloaded), an empty one is overwritten by pinning `mem`. -/
+def syncBody {α : Type} [DecidableEq α] (cls : Bytes → α) (kind : QKind) (k : Bytes) (db : Db) (mem : List Bytes) : Db × Except Exn Q :=
+  match cntIoVals db k with
+  | .error x => (db, .error x)
+  | .ok n =>
+    if n ≠ 0 then
+      match getIoVals db k with
+      | .error x => (db, .error x)
+      | .ok vs => (db, .ok ⟨(match kind with | .durq => vs | .dusq => osetUpdate cls [] vs), false⟩)
+    else
+      match (match kind with | .durq => pinIoVals db k mem | .dusq => pinIoSetVals db k mem) with
+      | (db', .ok _) => (db', .ok ⟨mem, false⟩)
+      | (db', .error x) => (db', .error x)
 
 def qstep {α : Type} [DecidableEq α] (cls : Bytes → α) (kind : QKind) (k : Bytes) (db : Db) (q : Q) : QOp → Db × Q × QRes
   | .push v => match kind with
@@ -117,31 +133,32 @@ def qstep {α : Type} [DecidableEq α] (cls : Bytes → α) (kind : QKind) (k : 
   | .count v => match kind with
     | .durq => (db, q, .nat (q.mem.filter (fun x => cls x == cls v)).length)
     | .dusq => (db, q, .unsupported)
+  | .sync force =>
+    if q.stale || force then
+      match syncBody cls kind k db q.mem with
+      | (db', .ok q') => (db', q', .bool true)
+      | (db', .error x) => (db', q, .raise x)
+    else (db, q, .val none)
 
-/-- `Hold.inject` of a fresh `Durq()` / `Dusq()` at key `k`: `sync()` with `stale = True` -/
-def inject {α : Type} [DecidableEq α] (cls : Bytes → α) (kind : QKind) (k : Bytes) (db : Db) : Db × Except Exn Q :=
-  match cntIoVals db k with
-  | .error x => (db, .error x)
-  | .ok n =>
-    if n ≠ 0 then
-      match getIoVals db k with
-      | .error x => (db, .error x)
-      | .ok vs => (db, .ok ⟨(match kind with | .durq => vs | .dusq => osetUpdate cls [] vs), false⟩)
-    else
-      -- empty durable copy: pin the (empty) in-memory container
-      match (match kind with | .durq => pinIoVals db k [] | .dusq => pinIoSetVals db k []) with
-      | (db', .ok _) => (db', .ok ⟨[], false⟩)
-      | (db', .error x) => (db', .error x)
+/-- what `Durq(pre)` / `Dusq(pre)` holds before it is injected (`pre = []`: a fresh empty object) -/
+def initMem {α : Type} [DecidableEq α] (cls : Bytes → α) (kind : QKind) (pre : List Bytes) : List Bytes :=
+  match kind with
+  | .durq => pre
+  | .dusq => osetUpdate cls [] pre
+
+/-- `Hold.inject` of a new `Durq(pre)` / `Dusq(pre)` at key `k`: the object is stale, so `sync()` runs its body -/
+def inject {α : Type} [DecidableEq α] (cls : Bytes → α) (kind : QKind) (k : Bytes) (db : Db) (pre : List Bytes := []) : Db × Except Exn Q :=
+  syncBody cls kind k db (initMem cls kind pre)
 
 /-- one queue at one key: the history language of the C23 theorems -/
 inductive HOp where
   | op (o : QOp)
-  | reopen
+  | reopen (pre : List Bytes)     -- close, open, inject `Durq(pre)` / `Dusq(pre)` at the key
 deriving Repr
 
 def hstep {α : Type} [DecidableEq α] (cls : Bytes → α) (kind : QKind) (k : Bytes) (db : Db) (q : Q) : HOp → Db × Q × QRes
   | .op o => qstep cls kind k db q o
-  | .reopen => match inject cls kind k db with
+  | .reopen pre => match inject cls kind k db pre with
     | (db', .ok q') => (db', q', .bool true)
     | (db', .error x) => (db', q, .raise x)
 
@@ -177,6 +194,7 @@ inductive AOp where
   | clear
   | remove (a : Arg)
   | count (a : Arg)
+  | sync (force : Bool)
 deriving Repr
 
 def argsOk : List Arg → Option (List Bytes)
@@ -200,18 +218,19 @@ def validate : AOp → Except QRes QOp
   | .remove _ => .error (.raise .hierError)
   | .count (.ok b) => .ok (.count b)
   | .count _ => .error (.nat 0)
+  | .sync f => .ok (.sync f)
 
 inductive MOp where
   | q (k : Bytes) (o : QOp)
   | a (k : Bytes) (o : AOp)       -- as called: may be rejected
-  | reopen
-deriving Repr
+  | reopen (pre : Bytes → List Bytes)   -- the preload handed to the new object at each key
 
 /-- `Hold` rebuilt after reopen: a fresh object injected at every key, in order; a failing inject stops -/
-def injectAll {α : Type} [DecidableEq α] (cls : Bytes → α) (kind : QKind) : List Bytes → Db → MS → Db × MS × Option Exn
+def injectAll {α : Type} [DecidableEq α] (cls : Bytes → α) (kind : QKind) (pre : Bytes → List Bytes) :
+    List Bytes → Db → MS → Db × MS × Option Exn
   | [], db, ms => (db, ms, none)
-  | k :: ks, db, ms => match inject cls kind k db with
-    | (db', .ok q) => injectAll cls kind ks db' (setQ ms k q)
+  | k :: ks, db, ms => match inject cls kind k db (pre k) with
+    | (db', .ok q) => injectAll cls kind pre ks db' (setQ ms k q)
     | (db', .error x) => (db', ms, some x)
 
 def mstep {α : Type} [DecidableEq α] (cls : Bytes → α) (kind : QKind) (keys : List Bytes) (db : Db) (ms : MS) : MOp → Db × MS × QRes
@@ -219,7 +238,7 @@ def mstep {α : Type} [DecidableEq α] (cls : Bytes → α) (kind : QKind) (keys
   | .a k o => match validate o with
     | .ok qo => ((qstep cls kind k db (ms k) qo).1, setQ ms k (qstep cls kind k db (ms k) qo).2.1, (qstep cls kind k db (ms k) qo).2.2)
     | .error r => (db, ms, r)      -- rejected: nothing was touched
-  | .reopen => match injectAll cls kind keys db ms with
+  | .reopen pre => match injectAll cls kind pre keys db ms with
     | (db', ms', none) => (db', ms', .bool true)
     | (db', ms', some x) => (db', ms', .raise x)
 
